@@ -628,3 +628,5 @@ func c09Kill(rep *verifrep.R, dir string, seed int64) {
 }
 
 var _ = raftlog.FromBytes
+
+func tsNew(t time.Time) *timestamppb.Timestamp { return timestamppb.New(t) }
